@@ -295,21 +295,21 @@ Qed.
 (* ------------------------------------------------------------------ *)
 (* E. the three read paths of a flushed segment agree                   *)
 (* ------------------------------------------------------------------ *)
-Lemma compute_range_shape fx size es o max st en :
-  compute_range_gen fx size es o max = (st, en) ->
-  (st = -1 /\ en = -1) \/ (st = ie_pos (find_entry_gen fx es o) /\ st < size - 16 /\ st <= en < size - 16 \/
-                           st = ie_pos (find_entry_gen fx es o) /\ st < size - 16 /\ en < st /\ 0 < max).
+Lemma compute_range_shape v size es o max st en :
+  compute_range_gen v size es o max = (st, en) ->
+  (st = -1 /\ en = -1) \/ (st < size - 16 /\ en < size - 16).
 Proof.
   unfold compute_range_gen, segment_footer_len.
   destruct (size <=? 16); [intros [= <- <-]; now left|].
-  destruct (size - 16 <=? ie_pos (find_entry_gen fx es o)) eqn:E; [intros [= <- <-]; now left|].
-  intros [= <- <-]. right. destruct (0 <? max) eqn:E2; lia.
+  destruct (size - 16 <=? ie_pos (find_entry_gen (v_floor v) es o)) eqn:E; [intros [= <- <-]; now left|].
+  intros [= <- <-]. right. destruct (0 <? max) eqn:E2; [|lia].
+  destruct (v_ext v && (ie_off (find_entry_gen (v_floor v) es o) <? o)); lia.
 Qed.
 
 (* sliceCachedSegment on the object = what the S3 range read returns = what the full
    download + slice returns, for ANY index entries, offset and limit, as long as the
    registered size is the object's size *)
-Lemma paths_agree_seg fx s o max : s_size s = zlen (s_data s) ->
+Lemma paths_agree_seg (fx : variant) s o max : s_size s = zlen (s_data s) ->
   read_uncached_gen fx s o max = read_cached_gen fx s o max.
 Proof.
   intros Hsz. unfold read_uncached_gen, read_range_gen, read_full_gen, read_cached_gen, range_for_gen.
@@ -366,17 +366,24 @@ Proof.
   destruct k; cbn; [eauto|]. apply IH. lia.
 Qed.
 
-(* the bytes a read of the segment returns: from the batch the chosen index entry
-   points at, capped *)
-Definition capped (max : Z) (X : bytes) : bytes := if 0 <? max then ztake max X else X.
+(* the byte cap computeSegmentRange applies, relative to the start position *)
+Definition cap_of (v : variant) (es : list ientry) (o' size max : Z) : Z :=
+  let e := find_entry_gen (v_floor v) es o' in
+  if v_ext v && (ie_off e <? o') then Z.max max (block_end es o' (size - 16) - ie_pos e) else max.
 
-Lemma seg_read_cached fx iv c r lo bs o' max :
+Definition capped (max cap : Z) (X : bytes) : bytes := if 0 <? max then ztake cap X else X.
+
+Lemma cap_of_ge v es o' size max : max <= cap_of v es o' size max.
+Proof. unfold cap_of. destruct (v_ext v && _); lia. Qed.
+
+Lemma seg_read_cached v iv c r lo bs o' max :
   chain lo bs -> bs <> [] -> first_base bs <= o' ->
   let s := build_segment iv c r bs in
   exists k, (k < length bs)%nat /\
-    ie_pos (find_entry_gen fx (s_entries s) o') = 32 + zlen (body_of (firstn k bs)) /\
+    ie_pos (find_entry_gen (v_floor v) (s_entries s) o') = 32 + zlen (body_of (firstn k bs)) /\
+    ie_off (find_entry_gen (v_floor v) (s_entries s) o') = b_base (nth k bs dflt) /\
     b_base (nth k bs dflt) <= o' /\
-    read_cached_gen fx s o' max = ROk (capped max (body_of (skipn k bs))).
+    read_cached_gen v s o' max = ROk (capped max (cap_of v (s_entries s) o' (s_size s) max) (body_of (skipn k bs))).
 Proof.
   intros Hc Hne Hfb s.
   assert (Ebs' : exists b0 rest, bs = b0 :: rest) by (destruct bs as [|b0 rest]; [congruence|eauto]).
@@ -384,14 +391,14 @@ Proof.
   assert (Hent : exists tl, s_entries s = mkEntry (b_base b0) 32 :: tl).
   { subst s. unfold build_segment. cbn [s_entries]. rewrite Ebs. apply build_index_first. }
   destruct Hent as (tl & Hent).
-  set (e := find_entry_gen fx (s_entries s) o').
+  set (e := find_entry_gen (v_floor v) (s_entries s) o').
   assert (Hin : In e (s_entries s)) by (apply find_entry_in; rewrite Hent; congruence).
   assert (Hle : ie_off e <= o').
   { subst e. rewrite Hent. apply find_entry_le. cbn [ie_off]. subst bs. exact Hfb. }
   assert (Hnil : is_nil (s_entries s) = false) by (rewrite Hent; reflexivity).
   assert (Hin' : In e (build_index (norm_interval iv) 0 true segment_header_len bs)) by exact Hin.
   apply build_index_in in Hin' as (k & Hk & Hoff & Hpos).
-  exists k. split; [exact Hk|]. split; [exact Hpos|]. split; [lia|].
+  exists k. split; [exact Hk|]. split; [exact Hpos|]. split; [exact Hoff|]. split; [lia|].
   unfold read_cached_gen, slice_cached_gen. rewrite Hnil.
   set (P := zlen (body_of (firstn k bs))) in *.
   set (X := body_of (skipn k bs)).
@@ -403,13 +410,18 @@ Proof.
   assert (Hsize : s_size s = 32 + zlen (body_of bs) + 16).
   { subst s. unfold build_segment. cbn [s_size]. rewrite !zlen_app, header_len, footer_len. lia. }
   assert (Hdata : zlen (s_data s) = s_size s) by reflexivity.
-  assert (Hcr : compute_range_gen fx (s_size s) (s_entries s) o' max
-                = (32 + P, if 0 <? max then Z.min (s_size s - 16 - 1) (32 + P + max - 1) else s_size s - 16 - 1)).
+  set (cap := cap_of v (s_entries s) o' (s_size s) max).
+  assert (Hcap : max <= cap) by apply cap_of_ge.
+  assert (Hcr : compute_range_gen v (s_size s) (s_entries s) o' max
+                = (32 + P, if 0 <? max then Z.min (s_size s - 16 - 1) (32 + P + cap - 1) else s_size s - 16 - 1)).
   { unfold compute_range_gen, segment_footer_len, segment_header_len in *. fold e. rewrite Hpos.
     destruct (s_size s <=? 16) eqn:E1; [lia|].
-    destruct (s_size s - 16 <=? 32 + P) eqn:E2; [lia|]. reflexivity. }
+    destruct (s_size s - 16 <=? 32 + P) eqn:E2; [lia|]. f_equal.
+    destruct (0 <? max) eqn:E3; [|reflexivity]. f_equal.
+    subst cap. unfold cap_of. fold e. rewrite Hpos.
+    destruct (v_ext v && (ie_off e <? o')); lia. }
   rewrite Hcr.
-  set (en := if 0 <? max then Z.min (s_size s - 16 - 1) (32 + P + max - 1) else s_size s - 16 - 1).
+  set (en := if 0 <? max then Z.min (s_size s - 16 - 1) (32 + P + cap - 1) else s_size s - 16 - 1).
   assert (Hen : 32 + P <= en < s_size s - 16) by (subst en; destruct (0 <? max) eqn:E; lia).
   destruct ((32 + P <? 0) || (en <? 32 + P)) eqn:E1; [lia|].
   rewrite Hdata.
@@ -420,7 +432,7 @@ Proof.
   2: rewrite header_len; reflexivity.
   subst P. rewrite zdrop_body_prefix. fold X. unfold capped.
   subst en. destruct (0 <? max) eqn:E.
-  - rewrite <- (ztake_min max X). f_equal. lia.
+  - rewrite <- (ztake_min cap X). f_equal. lia.
   - apply ztake_all. lia.
 Qed.
 
@@ -429,6 +441,17 @@ Qed.
 (* ------------------------------------------------------------------ *)
 Definition seg_batches (segs : list segment) : list batch := concat (map s_batches segs).
 
+(* consecutive offsets: each batch starts right after the previous one ends (what the
+   write buffer holds, hence what every segment holds) *)
+Fixpoint tightc (lo : Z) (bs : list batch) : Prop :=
+  match bs with [] => True | b :: r => b_base b = lo /\ tightc (b_last b + 1) r end.
+
+Lemma tightc_app lo a b : tightc lo (a ++ b) <-> tightc lo a /\ tightc (hi_of lo a) b.
+Proof.
+  revert lo; induction a as [|x a IH]; intros lo; cbn [app tightc hi_of]; [tauto|].
+  rewrite IH. tauto.
+Qed.
+
 Definition seg_ok (iv : Z) (s : segment) : Prop :=
   s_batches s <> [] /\ exists c r, s = build_segment iv c r (s_batches s).
 
@@ -436,7 +459,10 @@ Record inv (start : Z) (l : plog) : Prop := mkInv {
   inv_chain : chain start (live l);
   inv_next : hi_of start (live l) <= l_next l;
   inv_segs : Forall (seg_ok (l_interval l)) (l_segs l);
-  inv_fl : forall s, l_inflight l = Some s -> seg_ok (l_interval l) s
+  inv_fl : forall s, l_inflight l = Some s -> seg_ok (l_interval l) s;
+  inv_tsegs : Forall (fun s => exists lo, tightc lo (s_batches s)) (l_segs l);
+  inv_tmem : exists lo, tightc lo (flushing_batches l ++ l_buffer l)
+                        /\ hi_of lo (flushing_batches l ++ l_buffer l) = l_next l
 }.
 
 Lemma live_eq l : live l = seg_batches (l_segs l) ++ flushing_batches l ++ l_buffer l.
@@ -460,13 +486,15 @@ Proof.
   - cbn. lia.
   - constructor.
   - intros s H. discriminate.
+  - constructor.
+  - exists start. split; [exact I|reflexivity].
 Qed.
 
 Lemma inv_step start l o : valid_op o -> inv start l -> inv start (step l o).
 Proof.
-  intros Hv [Hc Hn Hs Hf]. destruct o as [p|c r| |]; cbn [step].
+  intros Hv Hi. pose proof Hi as [Hc Hn Hs Hf Hts (lo & Htm & Hth)]. destruct o as [p|c r| |]; cbn [step].
   - (* append *)
-    unfold batch_header_min in *. destruct (zlen p <? 61) eqn:E; [constructor; assumption|].
+    unfold batch_header_min in *. destruct (zlen p <? 61) eqn:E; [exact Hi|].
     cbn [valid_op] in Hv. unfold batch_header_min in Hv.
     assert (Hlod : 0 <= payload_lod p) by (apply Hv; lia).
     set (b := mkBatch (l_next l) (payload_lod p) (payload_count p) (patch_base (l_next l) p)).
@@ -477,30 +505,42 @@ Proof.
     + rewrite Hl. apply chain_app. split; [exact Hc|]. cbn [chain]. subst b. cbn [b_base b_lod b_bytes].
       rewrite patch_len by lia. repeat split; lia.
     + rewrite Hl, hi_of_app. cbn [hi_of]. subst b. unfold b_last. cbn [b_base b_lod]. lia.
+    + exists lo. unfold flushing_batches in *. cbn [l_inflight l_buffer]. rewrite app_assoc.
+      split.
+      * apply tightc_app. split; [exact Htm|]. cbn [tightc]. subst b. cbn [b_base]. split; [lia|exact I].
+      * rewrite hi_of_app. cbn [hi_of]. subst b. unfold b_last. cbn [b_base b_lod]. lia.
   - (* prepareFlush *)
-    destruct (l_inflight l) as [s|] eqn:Ei; [constructor; try assumption; now rewrite Ei|].
-    destruct (l_buffer l) as [|x buf] eqn:Eb; [constructor; try assumption; now rewrite Ei|].
+    destruct (l_inflight l) as [s|] eqn:Ei; [exact Hi|].
+    destruct (l_buffer l) as [|x buf] eqn:Eb; [exact Hi|].
     assert (Hl : live (mkLog (l_interval l) (l_requeue l) (l_next l) (l_segs l)
                   (Some (build_segment (l_interval l) c r (x :: buf))) []) = live l).
     { unfold live, flushing_batches. cbn [l_segs l_inflight l_buffer s_batches build_segment].
       rewrite Ei, Eb. now rewrite app_nil_r. }
     constructor; cbn [l_interval l_segs l_inflight l_next]; try (rewrite Hl); try assumption.
-    intros s [= <-]. split; [cbn; congruence|]. exists c, r. reflexivity.
+    + intros s [= <-]. split; [cbn; congruence|]. exists c, r. reflexivity.
+    + exists lo. unfold flushing_batches in *. cbn [l_inflight l_buffer s_batches build_segment].
+      rewrite Ei in Htm, Hth. cbn [app] in Htm, Hth. rewrite app_nil_r. auto.
   - (* commit *)
-    destruct (l_inflight l) as [s|] eqn:Ei; [|constructor; try assumption; now rewrite Ei].
+    destruct (l_inflight l) as [s|] eqn:Ei; [|exact Hi].
     assert (Hl : live (mkLog (l_interval l) (l_requeue l) (l_next l) (l_segs l ++ [s]) None (l_buffer l)) = live l).
     { unfold live, flushing_batches. cbn [l_segs l_inflight l_buffer]. rewrite Ei.
       rewrite map_app, concat_app. cbn [map concat]. now rewrite app_nil_r, <- app_assoc. }
+    unfold flushing_batches in Htm, Hth. rewrite Ei in Htm, Hth.
+    apply tightc_app in Htm as [Ht1 Ht2]. rewrite hi_of_app in Hth.
     constructor; cbn [l_interval l_segs l_inflight l_next]; try (rewrite Hl); try assumption.
     + apply Forall_app. split; [assumption|]. constructor; [|constructor]. apply Hf. reflexivity.
     + intros; discriminate.
+    + apply Forall_app. split; [assumption|]. constructor; [eauto|constructor].
+    + exists (hi_of lo (s_batches s)). unfold flushing_batches. cbn [l_inflight l_buffer app]. auto.
   - (* failed upload *)
-    destruct (l_inflight l) as [s|] eqn:Ei; [|constructor; try assumption; now rewrite Ei].
+    destruct (l_inflight l) as [s|] eqn:Ei; [|exact Hi].
+    unfold flushing_batches in Htm, Hth. rewrite Ei in Htm, Hth.
     destruct (l_requeue l) eqn:Erq.
     + assert (Hl : live (mkLog (l_interval l) true (l_next l) (l_segs l) None (s_batches s ++ l_buffer l)) = live l).
       { unfold live, flushing_batches. cbn [l_segs l_inflight l_buffer]. now rewrite Ei. }
       constructor; cbn [l_interval l_segs l_inflight l_next]; try (rewrite Hl); try assumption.
-      intros; discriminate.
+      * intros; discriminate.
+      * exists lo. unfold flushing_batches. cbn [l_inflight l_buffer app]. auto.
     + assert (Hl : live (mkLog (l_interval l) false (l_next l) (l_segs l) None (l_buffer l))
                    = seg_batches (l_segs l) ++ l_buffer l) by reflexivity.
       assert (Hl0 : live l = seg_batches (l_segs l) ++ s_batches s ++ l_buffer l).
@@ -508,10 +548,12 @@ Proof.
       rewrite Hl0 in Hc, Hn. apply chain_app in Hc as [Hc1 Hc2]. apply chain_app in Hc2 as [Hc2 Hc3].
       rewrite !hi_of_app in Hn.
       pose proof (hi_of_ge _ _ Hc2) as Hge.
+      apply tightc_app in Htm as [Ht1 Ht2]. rewrite hi_of_app in Hth.
       constructor; cbn [l_interval l_segs l_inflight l_next]; try (rewrite Hl); try assumption.
       * apply chain_app. split; [assumption|]. eapply chain_weaken; [|exact Hc3]. exact Hge.
       * rewrite hi_of_app. etransitivity; [|exact Hn]. apply hi_of_mono. exact Hge.
       * intros; discriminate.
+      * exists (hi_of lo (s_batches s)). unfold flushing_batches. cbn [l_inflight l_buffer app]. auto.
 Qed.
 
 Lemma step_interval l o : l_interval (step l o) = l_interval l.
@@ -577,12 +619,70 @@ Proof.
   apply (chain_last_ge (b_base b0)). cbn [chain] in *. repeat split; try tauto; lia.
 Qed.
 
-Lemma capped_spec max X : 61 <= zlen X ->
-  exists n, 1 <= n <= zlen X /\ capped max X = ztake n X /\ (0 < max -> n = Z.min max (zlen X)).
+Lemma capped_spec max cap X : 61 <= zlen X -> max <= cap ->
+  exists n, 1 <= n <= zlen X /\ capped max cap X = ztake n X /\ (0 < max -> n = Z.min cap (zlen X)).
 Proof.
-  intros H. unfold capped. destruct (0 <? max) eqn:E.
-  - exists (Z.min (zlen X) max). repeat split; try lia. now rewrite ztake_min.
+  intros H Hc. unfold capped. destruct (0 <? max) eqn:E.
+  - exists (Z.min (zlen X) cap). repeat split; try lia. now rewrite ztake_min.
   - exists (zlen X). repeat split; try lia. symmetry. apply ztake_all. lia.
+Qed.
+
+Lemma block_end_cases es o lim :
+  block_end es o lim = lim \/ exists e, In e es /\ o < ie_off e /\ block_end es o lim = ie_pos e.
+Proof.
+  induction es as [|e r IH]; cbn [block_end]; [now left|].
+  destruct (o <? ie_off e) eqn:E.
+  - right. exists e. repeat split; [now left|lia].
+  - destruct IH as [IH|(e' & Hin & Ho & He)]; [now left|]. right. exists e'. repeat split; [now right|assumption|assumption].
+Qed.
+
+Lemma chain_lod lo bs : chain lo bs -> Forall (fun b => 0 <= b_lod b) bs.
+Proof.
+  revert lo; induction bs as [|b r IH]; intros lo; cbn [chain]; [constructor|].
+  intros (H1 & H2 & H3 & H4). constructor; [exact H2|]. eapply IH; exact H4.
+Qed.
+
+(* the first index entry beyond o' lies past the whole batch holding o' *)
+Lemma block_end_gt iv lo bs ld b r' o' since first :
+  bs = ld ++ b :: r' -> chain lo bs -> Forall (fun x => b_last x < o') ld -> b_base b <= o' ->
+  32 + zlen (body_of ld) + 61 <= block_end (build_index iv since first 32 bs) o' (32 + zlen (body_of bs)).
+Proof.
+  intros Ebs Hc Hld Hb.
+  assert (Hb61 : 61 <= zlen (b_bytes b)).
+  { pose proof (chain_nonempty_bytes _ _ Hc) as Hf. rewrite Ebs in Hf. apply Forall_app in Hf as [_ Hf]. now inversion Hf. }
+  assert (Hbody : forall m, zlen (body_of (ld ++ b :: m)) = zlen (body_of ld) + zlen (b_bytes b) + zlen (body_of m)).
+  { intros m. rewrite body_of_app, body_of_cons, !zlen_app. lia. }
+  destruct (block_end_cases (build_index iv since first 32 bs) o' (32 + zlen (body_of bs))) as [->|(e & Hin & Ho & ->)].
+  - rewrite Ebs, Hbody. pose proof (zlen_nonneg (body_of r')). lia.
+  - apply build_index_in in Hin as (k2 & Hk2 & Hoff & Hpos). rewrite Hpos.
+    assert (Hlods : Forall (fun x => 0 <= b_lod x) bs) by (eapply chain_lod; exact Hc).
+    assert (Hgt : (length ld < k2)%nat).
+    { destruct (Nat.lt_ge_cases (length ld) k2) as [H|H]; [exact H|exfalso].
+      rewrite Ebs in Hoff, Hlods. apply Forall_app in Hlods as [Hl1 _].
+      destruct (Nat.eq_dec k2 (length ld)) as [->|Hne].
+      - rewrite nth_middle in Hoff. lia.
+      - rewrite app_nth1 in Hoff by lia.
+        assert (Hin : In (nth k2 ld dflt) ld) by (apply nth_In; lia).
+        rewrite Forall_forall in Hld, Hl1. apply Hld in Hin as H1. apply Hl1 in Hin as H2.
+        unfold b_last in H1. lia. }
+    rewrite Ebs. rewrite firstn_app. rewrite firstn_all2 by lia.
+    destruct (k2 - length ld)%nat as [|m] eqn:Em; [lia|]. cbn [firstn].
+    rewrite Hbody. pose proof (zlen_nonneg (body_of (firstn m r'))). lia.
+Qed.
+
+(* in a tight chain the first batch not ending below o' starts at or below o' *)
+Lemma tight_holds lo lo' bs ld b r' o' :
+  bs = ld ++ b :: r' -> tightc lo bs -> chain lo' bs -> Forall (fun x => b_last x < o') ld ->
+  first_base bs <= o' -> b_base b <= o'.
+Proof.
+  intros Ebs Ht Hc Hld Hfb. rewrite Ebs in Ht. apply tightc_app in Ht as [_ Ht]. cbn [tightc] in Ht.
+  destruct Ht as [Hbb _].
+  destruct ld as [|x ld'] eqn:Eld.
+  - cbn [app] in Ebs. rewrite Ebs in Hfb. cbn [first_base] in Hfb. exact Hfb.
+  - rewrite <- Eld in *. assert (Hne : ld <> []) by (rewrite Eld; congruence).
+    rewrite (hi_of_last _ _ Hne) in Hbb.
+    destruct (exists_last Hne) as (a & z & Ez). rewrite Ez in Hbb, Hld. rewrite last_last_snoc in Hbb.
+    apply Forall_app in Hld as [_ Hld]. inversion Hld; subst. lia.
 Qed.
 
 Lemma body_firstn_prefix n rest more :
@@ -597,15 +697,16 @@ Qed.
    below o, rest starts with a batch ending at or after o, the result is the first n
    bytes of mid ++ rest, mid's bytes are exactly [entry_distance], and n is only cut
    short by maxBytes. *)
-Lemma read_shape start l cached o max d : inv start l -> read l cached o max = ROk d ->
+Lemma read_shape v start l cached o max d : inv start l -> read_gen v true l cached o max = ROk d ->
   exists pre mid rest n, live l = pre ++ mid ++ rest /\
     Forall (fun b => b_last b < o) pre /\ Forall (fun b => b_last b < o) mid /\
     (exists b r, rest = b :: r /\ o <= b_last b) /\
     d = ztake n (body_of (mid ++ rest)) /\ 1 <= n <= zlen (body_of (mid ++ rest)) /\
-    entry_distance l o = zlen (body_of mid) /\
-    (0 < max -> Z.min max (zlen (body_of mid) + 1) <= n).
+    (v_floor v = true -> entry_distance l o = zlen (body_of mid)) /\
+    (0 < max -> Z.min max (zlen (body_of mid) + 1) <= n) /\
+    (v_ext v = true -> 0 < max -> zlen (body_of mid) < n).
 Proof.
-  intros [Hc Hn Hs Hf] Hr. unfold read, read_gen in Hr. cbv beta zeta iota in Hr. unfold entry_distance.
+  intros [Hc Hn Hs Hf Hts Htm] Hr. unfold read_gen in Hr. cbv beta zeta iota in Hr. unfold entry_distance.
   rewrite live_eq in *.
   destruct (find_segment (l_segs l) o) as [[s o']|] eqn:Efs.
   - (* served by a flushed segment *)
@@ -617,13 +718,14 @@ Proof.
     set (T := seg_batches B ++ flushing_batches l ++ l_buffer l) in *.
     apply chain_app in Hc as [HcA Hc2]. apply chain_app in Hc2 as [Hcs Hc3].
     assert (Hsz : s_size s = zlen (s_data s)) by (rewrite Hseg; reflexivity).
-    assert (Hrc : read_cached_gen true s o' max = ROk d).
+    rewrite Esegs in Hts. apply Forall_app in Hts as [_ Hts]. apply Forall_inv in Hts as (tlo & Htight). fold bs in Htight.
+    assert (Hrc : read_cached_gen v s o' max = ROk d).
     { destruct cached; [exact Hr|]. rewrite <- paths_agree_seg; assumption. }
     assert (Hbase : s_base s = first_base bs) by (rewrite Hseg at 1; reflexivity).
     assert (Hlast : s_last s = last_last bs) by (rewrite Hseg at 1; reflexivity).
     assert (Hfb : first_base bs <= o') by lia.
     rewrite Hseg in Hrc.
-    destruct (seg_read_cached true (l_interval l) c r _ bs o' max Hcs Hne Hfb) as (k & Hk & Hoff & Hbk & Hrd).
+    destruct (seg_read_cached v (l_interval l) c r _ bs o' max Hcs Hne Hfb) as (k & Hk & Hoff & Hoffk & Hbk & Hrd).
     rewrite Hrd in Hrc. injection Hrc as <-.
     pose proof (chain_firstn_lt _ _ _ Hcs Hk) as Hfk.
     destruct (lead_split o' (skipn k bs)) as (rest' & Hsplit & Hmid & Hrest').
@@ -655,9 +757,11 @@ Proof.
         cbn [chain] in Hcs. cbn [first_base] in Hbase.
         destruct (b_last b0 <? s_base s) eqn:E; [unfold b_last in E; lia|constructor]. }
     apply Forall_app in Hmid_o as [Hpre_o Hmid_o].
-    destruct (capped_spec max (body_of (skipn k bs))) as (n & Hn1 & Hcap & Hnmax).
+    set (cap := cap_of v (s_entries (build_segment (l_interval l) c r bs)) o' (s_size (build_segment (l_interval l) c r bs)) max) in *.
+    destruct (capped_spec max cap (body_of (skipn k bs))) as (n & Hn1 & Hcap & Hnmax).
     { destruct (skipn_nth_cons bs k Hk) as (r'' & Hr'').
       eapply body_nonempty; [apply chain_skipn; exact Hcs|rewrite Hr''; congruence]. }
+    { apply cap_of_ge. }
     exists (seg_batches A ++ firstn k bs), mid, ((b :: r') ++ T), n.
     assert (Hbody : body_of (mid ++ (b :: r') ++ T) = body_of (skipn k bs) ++ body_of T).
     { rewrite app_assoc, <- Hsplit. apply body_of_app. }
@@ -671,18 +775,46 @@ Proof.
       destruct Ho' as [[-> _]|[-> Hlt]]; lia. }
     split; [rewrite Hbody, ztake_app_l by lia; exact Hcap|].
     split; [rewrite Hbody, zlen_app; pose proof (zlen_nonneg (body_of T)); lia|].
-    split.
-    { unfold find_entry.
-      replace (s_entries s) with (s_entries (build_segment (l_interval l) c r bs)) by (rewrite <- Hseg; reflexivity).
-      rewrite Hoff. rewrite Hlead, body_of_app, zlen_app.
-      unfold segment_header_len. lia. }
-    intros Hmax. specialize (Hnmax Hmax). subst n.
-    assert (zlen (body_of (skipn k bs)) = zlen (body_of mid) + zlen (body_of (b :: r'))).
+    assert (HX : zlen (body_of (skipn k bs)) = zlen (body_of mid) + zlen (body_of (b :: r'))).
     { rewrite Hsplit at 1. now rewrite body_of_app, zlen_app. }
-    assert (61 <= zlen (body_of (b :: r'))).
+    assert (Hb61 : 61 <= zlen (body_of (b :: r'))).
     { pose proof (chain_skipn _ _ k Hcs) as Hck. rewrite Hsplit in Hck. apply chain_app in Hck as [_ Hck].
       eapply body_nonempty; [exact Hck|congruence]. }
-    lia.
+    assert (Hcapge : max <= cap) by apply cap_of_ge.
+    split.
+    { intros Hvf. unfold find_entry.
+      replace (s_entries s) with (s_entries (build_segment (l_interval l) c r bs)) by (rewrite <- Hseg; reflexivity).
+      rewrite Hvf in Hoff. rewrite Hoff. rewrite Hlead, body_of_app, zlen_app.
+      unfold segment_header_len. lia. }
+    split.
+    { intros Hmax. specialize (Hnmax Hmax). subst n. lia. }
+    intros Hext Hmax. specialize (Hnmax Hmax). subst n.
+    (* the whole segment as  lead ++ b :: r' *)
+    assert (Ebs : bs = (firstn k bs ++ mid) ++ b :: r').
+    { rewrite <- app_assoc, <- Hsplit. symmetry. apply firstn_skipn. }
+    assert (Hldlt : Forall (fun x => b_last x < o') (firstn k bs ++ mid)).
+    { apply Forall_app. split; [|exact Hmid]. eapply Forall_impl; [|exact Hfk]. cbn. intros; lia. }
+    pose proof (tight_holds _ _ _ _ _ _ _ Ebs Htight Hcs Hldlt Hfb) as Hbbase.
+    destruct (Z.eq_dec (b_base (nth k bs dflt)) o') as [Heq|Hneq].
+    + (* the entry is exactly at o': batch k holds o', nothing lies between *)
+      assert (mid = []).
+      { subst mid. destruct (skipn_nth_cons bs k Hk) as (r'' & Hr''). rewrite Hr''. cbn [lead].
+        assert (0 <= b_lod (nth k bs dflt)).
+        { pose proof (chain_lod _ _ Hcs) as Hl. rewrite Forall_forall in Hl. apply Hl. apply nth_In. exact Hk. }
+        destruct (b_last (nth k bs dflt) <? o') eqn:E; [unfold b_last in E; lia|reflexivity]. }
+      rewrite H. change (zlen (body_of [])) with 0. lia.
+    + (* entry strictly before o': the cap reaches the first index entry beyond o' *)
+      assert (Hlt : ie_off (find_entry_gen (v_floor v) (s_entries (build_segment (l_interval l) c r bs)) o') <? o' = true) by lia.
+      assert (Hcapv : block_end (s_entries (build_segment (l_interval l) c r bs)) o' (s_size (build_segment (l_interval l) c r bs) - 16)
+                      - (32 + zlen (body_of (firstn k bs))) <= cap).
+      { subst cap. unfold cap_of. rewrite Hext, Hlt, Hoff. cbn [andb]. lia. }
+      assert (Hsize : s_size (build_segment (l_interval l) c r bs) - 16 = 32 + zlen (body_of bs)).
+      { unfold build_segment. cbn [s_size]. rewrite !zlen_app, header_len, footer_len. lia. }
+      rewrite Hsize in Hcapv.
+      pose proof (block_end_gt (norm_interval (l_interval l)) _ bs _ b r' o' 0 true Ebs Hcs Hldlt Hbbase) as Hbe.
+      change (s_entries (build_segment (l_interval l) c r bs)) with (build_index (norm_interval (l_interval l)) 0 true segment_header_len bs) in Hcapv.
+      unfold segment_header_len in Hcapv.
+      rewrite body_of_app, zlen_app in Hbe. lia.
   - (* served from memory: in-flight batches first, then the write buffer *)
     apply find_segment_none in Efs.
     apply chain_app in Hc as [HcA Hc2]. apply chain_app in Hc2 as [Hcf Hcb].
@@ -714,7 +846,7 @@ Proof.
       split.
       { split; [lia|]. rewrite <- (firstn_skipn n2 (b :: r)) at 2. rewrite body_of_app, zlen_app.
         pose proof (zlen_nonneg (body_of (skipn n2 (b :: r)))). lia. }
-      split; [reflexivity|]. intros. change (zlen (body_of [])) with 0. lia.
+      split; [reflexivity|]. split; intros; change (zlen (body_of [])) with 0; lia.
     + (* the in-flight batches serve it *)
       cbv beta iota in Hr. rewrite Enil in Hr.
       assert (Hd : d = records_from (flushing_batches l) o max) by congruence. subst d. clear Hr.
@@ -732,7 +864,7 @@ Proof.
       { split; [lia|]. change (b :: r ++ l_buffer l) with ((b :: r) ++ l_buffer l).
         rewrite <- (firstn_skipn n1 (b :: r)) at 2. rewrite <- app_assoc, body_of_app, zlen_app.
         pose proof (zlen_nonneg (body_of (skipn n1 (b :: r) ++ l_buffer l))). lia. }
-      split; [reflexivity|]. intros. change (zlen (body_of [])) with 0. lia.
+      split; [reflexivity|]. split; intros; change (zlen (body_of [])) with 0; lia.
 Qed.
 
 (* ------------------------------------------------------------------ *)
@@ -744,13 +876,13 @@ Proof.
 Qed.
 
 (* C03: every successful read is a run of this partition's live batches *)
-Theorem read_sound iv rq start ops cached o max d :
+Theorem read_sound v iv rq start ops cached o max d :
   Forall valid_op ops ->
   let l := run (init_log iv rq start) ops in
-  read l cached o max = ROk d -> is_run (live l) o d.
+  read_gen v true l cached o max = ROk d -> is_run (live l) o d.
 Proof.
   intros Hv l Hr. assert (Hi : inv start l) by (apply inv_run; [exact Hv|apply inv_init]).
-  destruct (read_shape _ _ _ _ _ _ Hi Hr) as (pre & mid & rest & n & El & Hp & Hm & _ & Hd & Hn & _).
+  destruct (read_shape _ _ _ _ _ _ _ Hi Hr) as (pre & mid & rest & n & El & Hp & Hm & _ & Hd & Hn & _).
   exists pre, (mid ++ rest), n. repeat split; try assumption. subst d. now apply ztake_len_ge1.
 Qed.
 
@@ -796,14 +928,14 @@ Theorem live_appended iv rq start ops :
 Proof. apply (live_appended_gen ops (init_log iv rq start) []). constructor. Qed.
 
 (* C03: cached, range-read and full-download paths agree on every reachable log *)
-Theorem read_paths_agree iv rq start ops o max :
+Theorem read_paths_agree v iv rq start ops o max :
   Forall valid_op ops ->
   let l := run (init_log iv rq start) ops in
-  read l true o max = read l false o max.
+  read_gen v true l true o max = read_gen v true l false o max.
 Proof.
   intros Hv l. assert (Hi : inv start l) by (apply inv_run; [exact Hv|apply inv_init]).
-  unfold read, read_gen. destruct (find_segment (l_segs l) o) as [[s o']|] eqn:E; [|reflexivity].
-  apply find_segment_some in E as (A & B & Esegs & _). destruct Hi as [_ _ Hs _].
+  unfold read_gen. destruct (find_segment (l_segs l) o) as [[s o']|] eqn:E; [|reflexivity].
+  apply find_segment_some in E as (A & B & Esegs & _). destruct Hi as [_ _ Hs _ _ _].
   rewrite Esegs in Hs. apply Forall_app in Hs as [_ Hs]. inversion Hs as [|? ? [_ (c & r & Hseg)] _]; subst.
   symmetry. apply paths_agree_seg. rewrite Hseg. reflexivity.
 Qed.
@@ -824,10 +956,10 @@ Proof.
 Qed.
 
 (* a read below the end of the live log never fails (whatever maxBytes is) *)
-Lemma read_ok start l cached o max : inv start l ->
-  (exists b, In b (live l) /\ o <= b_last b) -> exists d, read l cached o max = ROk d.
+Lemma read_ok v start l cached o max : inv start l ->
+  (exists b, In b (live l) /\ o <= b_last b) -> exists d, read_gen v true l cached o max = ROk d.
 Proof.
-  intros Hi (b & Hin & Hb). pose proof Hi as [Hc Hn Hs Hf]. unfold read, read_gen. cbv beta zeta iota.
+  intros Hi (b & Hin & Hb). pose proof Hi as [Hc Hn Hs Hf _ _]. unfold read_gen. cbv beta zeta iota.
   rewrite live_eq in *.
   destruct (find_segment (l_segs l) o) as [[s o']|] eqn:Efs.
   - apply find_segment_some in Efs as (A & B & Esegs & HA & Ho').
@@ -837,7 +969,7 @@ Proof.
     assert (Hsz : s_size s = zlen (s_data s)) by (rewrite Hseg; reflexivity).
     assert (Hfb : first_base (s_batches s) <= o').
     { assert (s_base s = first_base (s_batches s)) by (rewrite Hseg at 1; reflexivity). lia. }
-    destruct (seg_read_cached true (l_interval l) c r _ _ o' max Hcs Hne Hfb) as (k & _ & _ & _ & Hrd).
+    destruct (seg_read_cached v (l_interval l) c r _ _ o' max Hcs Hne Hfb) as (k & _ & _ & _ & _ & Hrd).
     rewrite <- Hseg in Hrd.
     destruct cached; [|rewrite paths_agree_seg by exact Hsz]; eauto.
   - apply find_segment_none in Efs.
@@ -852,23 +984,49 @@ Proof.
     + cbv beta iota. rewrite Enil. eauto.
 Qed.
 
-(* C04, on the complement of the open finding: whenever maxBytes exceeds the distance
-   between the index entry Read starts from and the batch holding o (0 when there is
-   an entry at that batch, and for every read served from memory), the read succeeds
-   and reaches past the start of that batch *)
-Theorem read_progress_partial iv rq start ops cached o max :
+(* C04 without the cap extension (VFloor, and VHead's fallback aside): whenever maxBytes
+   exceeds the distance between the index entry Read starts from and the batch holding
+   o (0 when there is an entry at that batch, and for every read served from memory),
+   the read succeeds and reaches past the start of that batch *)
+Theorem read_progress_partial v iv rq start ops cached o max :
+  v_floor v = true ->
   Forall valid_op ops ->
   let l := run (init_log iv rq start) ops in
   0 < max -> (exists b, In b (live l) /\ o <= b_last b) ->
   entry_distance l o < max ->
-  exists d, read l cached o max = ROk d /\ progress_run (live l) o d.
+  exists d, read_gen v true l cached o max = ROk d /\ progress_run (live l) o d.
 Proof.
-  intros Hv l Hmax Hex Hdist. assert (Hi : inv start l) by (apply inv_run; [exact Hv|apply inv_init]).
-  destruct (read_ok start l cached o max Hi Hex) as (d & Hr). exists d. split; [exact Hr|].
-  destruct (read_shape _ _ _ _ _ _ Hi Hr) as (pre & mid & rest & n & El & Hp & Hm & Hrest & Hd & Hn & Hed & Hnm).
+  intros Hvf Hv l Hmax Hex Hdist. assert (Hi : inv start l) by (apply inv_run; [exact Hv|apply inv_init]).
+  destruct (read_ok v start l cached o max Hi Hex) as (d & Hr). exists d. split; [exact Hr|].
+  destruct (read_shape _ _ _ _ _ _ _ Hi Hr) as (pre & mid & rest & n & El & Hp & Hm & Hrest & Hd & Hn & Hed & Hnm & _).
   exists pre, mid, rest, n. repeat split; try assumption.
   - apply Forall_app; split; assumption.
-  - subst d. rewrite zlen_ztake by lia. specialize (Hnm Hmax). lia.
+  - subst d. rewrite zlen_ztake by lia. specialize (Hnm Hmax). specialize (Hed Hvf). lia.
+Qed.
+
+(* C04 in full, with the cap extension (VFull): every read at or below the end of the
+   live log with a positive byte limit succeeds and reaches past the start of the
+   batch holding o *)
+Lemma progress_of_shape v start l cached o max : v_ext v = true -> inv start l ->
+  0 < max -> (exists b, In b (live l) /\ o <= b_last b) ->
+  exists d, read_gen v true l cached o max = ROk d /\ progress_run (live l) o d.
+Proof.
+  intros Hext Hi Hmax Hex.
+  destruct (read_ok v start l cached o max Hi Hex) as (d & Hr). exists d. split; [exact Hr|].
+  destruct (read_shape _ _ _ _ _ _ _ Hi Hr) as (pre & mid & rest & n & El & Hp & Hm & Hrest & Hd & Hn & _ & _ & Hfull).
+  exists pre, mid, rest, n. repeat split; try assumption.
+  - apply Forall_app; split; assumption.
+  - subst d. rewrite zlen_ztake by lia. apply Hfull; assumption.
+Qed.
+
+Theorem read_progress iv rq start ops cached o max :
+  Forall valid_op ops ->
+  let l := run (init_log iv rq start) ops in
+  0 < max -> (exists b, In b (live l) /\ o <= b_last b) ->
+  exists d, read l cached o max = ROk d /\ progress_run (live l) o d.
+Proof.
+  intros Hv l Hmax Hex. assert (Hi : inv start l) by (apply inv_run; [exact Hv|apply inv_init]).
+  exact (progress_of_shape VFull start l cached o max eq_refl Hi Hmax Hex).
 Qed.
 
 (* progress_run implies its decidable form *)
